@@ -47,6 +47,18 @@ Viol2(o, c1, c2) == LET l1 == L(ln, o, VScale(c1, p), d)
                     IN  RLe(c1, c2) /\ Defined(l1) /\ Defined(l2) /\ Leq(l1, l2) # "yes"
 Law2 == Law2Domain => \A o \in Orients : \A c1 \in Scales, c2 \in Scales : ~Viol2(o, c1, c2)
 
+\* "does not reward a prediction merely for being large", second reading: a prediction too LARGE by a factor c is never
+\* scored better than one too SMALL by the same factor (p = d/c against p = c*d, d > 0).  This is the law that FIXES
+\* THE ARGUMENT ORDER of the residual for the asymmetric percentage loss: it holds data-first ("dp", |p - d| / d, the
+\* textbook definition) and fails prediction-first ("pd", |d - p| / p: 50x too large scores 98, 2.5x too small 150).
+Pos(v) == \A i \in 1..Len(v) : RGt(v[i], RZero)
+Viol3(o, c) == LET lo == L(ln, o, VScale(RInv(c), d), d)
+                   hi == L(ln, o, VScale(c, d), d)
+               IN  Defined(lo) /\ Defined(hi) /\ Leq(lo, hi) # "yes"
+Law3For(o) == (Len(d) >= 1 /\ p = d /\ Pos(d)) => \A c \in Scales : ~Viol3(o, c)
+Law3Wired   == Law3For("dp")      \* the residual as wired: loss_fn(data, prediction)
+Law3Swapped == Law3For("pd")
+
 \* gen: every counterexample to a law in the grid, with the two values the law compares (always TRUE)
 CexEmit == (EmitOn /\ Len(p) >= 1) =>
     /\ \A o \in Orients : Viol1(o) =>
